@@ -86,9 +86,12 @@ CrossSgn(a, b) == <<a[2] * b[3], a[3] * b[1], a[1] * b[2]>>
 Factor(o) == Mul(Mul(Pow(fac.rho, Obs[o].dim[1]), Pow(fac.v, Obs[o].dim[2])), Pow(fac.len, Obs[o].dim[3]))
 
 (* ---------------- scenario classes ---------------------------------------- *)
-Classes == [span : {"full", "half"}, side : {"L", "R", "F"}, ground : BOOLEAN, rot : BOOLEAN,
+\* side: "L" / "R" half meshes on the -y / +y side, "F" full span, "M" mixed: a half model whose surfaces lie alternately on
+\* the -y and the +y side (each symmetric surface may be described by either half)
+Classes == [span : {"full", "half"}, side : {"L", "R", "F", "M"}, ground : BOOLEAN, rot : BOOLEAN,
             nsurf : 1..3, symflow : BOOLEAN, compressible : BOOLEAN]
 ClassOK(c) == /\ (c.span = "half") <=> (c.side # "F")
+              /\ c.side = "M" => c.nsurf >= 2
               /\ c.ground => c.span = "half"
               /\ c.compressible => ~c.ground              \* not offered by the code: set-up fails loudly (OASSetup)
               /\ c.ground => c.symflow                  \* ground-effect models: symmetric flow (the image system is built for beta = 0)
@@ -142,7 +145,7 @@ Translate(d) == /\ CanAct("Translate") /\ d \in TransDirs /\ tr' = tr + 1 /\ ytr
                 /\ Log(Act("Translate", d)) /\ UNCHANGED <<cls, fac, mir, perm, ord>>
 \* reflection of the whole configuration about the x-z plane (node order reversed so y increases again)
 Mirror == /\ CanAct("Mirror")
-          /\ cls' = [cls EXCEPT !.side = IF @ = "L" THEN "R" ELSE IF @ = "R" THEN "L" ELSE "F"]
+          /\ cls' = [cls EXCEPT !.side = IF @ = "L" THEN "R" ELSE IF @ = "R" THEN "L" ELSE @]
           /\ mir' = ~mir
           /\ Log(Act("Mirror", 0)) /\ UNCHANGED <<fac, tr, ytr, perm, ord>>
 \* full-span mirror-symmetric model with symmetric flow -> half model with the symmetry option
